@@ -313,6 +313,11 @@ func c09iInterp(c c09iCase) (v kit.Verdict) {
 		if n := sh.last.pass + sh.last.fail; n != 1 {
 			return v.Failf("%s: admitted request reported %d times (pass %d, fail %d): the shedder's in-flight count cannot return to zero", what, n, sh.last.pass, sh.last.fail)
 		}
+		// which report: a call whose handler returned a response and a nil error is a pass outcome
+		// under every reading of the statement; every failing ending is UNSPECIFIED
+		if rq.Beh == "ok" && err == nil && sh.last.pass != 1 {
+			return v.Failf("%s: the handler succeeded (request %d through this interceptor) but the call was reported to the shedder as Fail: a pass is missing from the capacity window", what, i)
+		}
 		v.Classes = append(v.Classes, "beh-"+rq.Beh)
 	}
 	v.NonTrivial = rejected > 0 && admitted > 0
